@@ -71,6 +71,8 @@ directive @loop(a: Int @loop) on ARGUMENT_DEFINITION enum Empty { } union V = In
 type Query { again: Int } interface I2 implements I3 { a: Int } interface I3 implements I2 { a: Int }
 """
     add("bad-schema", "{ id zz }", bad_schema)
+    for label, s, d in G.valid_sources():
+        out.append((label, s, d))
     # the C21 structure corpus (a sample)
     structure = (G.input_sources(rng, True)[:12] + G.dir_sources(rng, True)[:12])
     for label, text in structure:
